@@ -5,7 +5,7 @@ code — not only along the trajectories its own scenario happens to take. A dif
 correspondence (reported with no-failing-input-found unless the property's own checker also found a failing input)."""
 import random
 
-from . import c11, c12, c15, f32corr, instgen, lib, netobs, opsfam
+from . import c11, c12, c15, f32corr, instgen, lib, netobs, opsfam, timecorr
 
 # which models each property's theorems depend on
 CONES = {
@@ -20,8 +20,11 @@ CONES = {
 # SlotDist.v / F32.v are in the cone of the theorems cited for the start solution (C02 track clause, C06 no panic, C14)
 for _p in ("C02", "C06"):
     CONES[_p] = CONES[_p] + ("f32", "slots")
-SIZES = {"quick": {"ops": 48, "neigh": 30, "tour": 32, "trans": 40, "f32": 3000, "slots": 40},
-         "thorough": {"ops": 600, "neigh": 300, "tour": 400, "trans": 500, "f32": 60000, "slots": 1500}}
+# Cal.v (ISO times <-> the model's seconds) is under every statement about departure / arrival times: loader (C17), output (C03)
+CONES["C17"] = ("time",)
+CONES["C03"] = CONES["C03"] + ("time",)
+SIZES = {"quick": {"ops": 48, "neigh": 30, "tour": 32, "trans": 40, "f32": 3000, "slots": 40, "time": 5000},
+         "thorough": {"ops": 600, "neigh": 300, "tour": 400, "trans": 500, "f32": 60000, "slots": 1500, "time": 120000}}
 
 
 def _ops(d, rng, seed, n):
@@ -43,6 +46,11 @@ def _f32(d, rng, seed, n, pid):
     return [({"f32": True, "seed": seed}, x) for x in r["diffs"]], r["ops"]
 
 
+def _time(d, rng, seed, n, pid):
+    r = timecorr.run(pid, rng, n, "timecone")
+    return [({"time": True, "seed": seed}, x) for x in r["diffs"]], r["ops"]
+
+
 def _slots(d, rng, seed, n):
     gen = [instgen.gen_instance(rng, slot_profile(rng)) for _ in range(n)]
     rs = [r for r in lib.pmap(f32corr.slots_case, [(d, 90000 + k, inst) for k, inst in enumerate(gen)]) if not r.get("skipped")]
@@ -53,6 +61,9 @@ def replay_one(fam, case, d):
     """re-runs one stored cone case (check.py <ID> --replay <cone replay>)"""
     if fam == "f32":
         r = f32corr.run("C14", random.Random(case.get("seed", 1)), 3000, "f32replay")
+        return [(case, x) for x in r["diffs"]]
+    if fam == "time":
+        r = timecorr.run("C17", random.Random(case.get("seed", 1)), 5000, "timereplay")
         return [(case, x) for x in r["diffs"]]
     if fam == "slots":
         r = f32corr.slots_case((d, 99005, case["instance"]))
@@ -141,6 +152,8 @@ def cone_correspondence(pid, tier, seed, d):
             ds, m = _f32(d, rng, seed, n, pid)
         elif fam == "slots":
             ds, m = _slots(d, rng, seed, n)
+        elif fam == "time":
+            ds, m = _time(d, rng, seed, n, pid)
         else:
             ds, m = _lines(d, rng, seed, n, fam)
         counts[fam] = m
@@ -148,7 +161,8 @@ def cone_correspondence(pid, tier, seed, d):
     return diffs, counts
 
 
-NAMES = {"f32": "F32.v (hand-written binary32: u64 as f32, /, +, partial_cmp) vs the hardware operations (bit patterns)",
+NAMES = {"time": "Cal.v (ISO date-time strings, calendar, TimePoint arithmetic and order) vs rapid_time as the loader and the JSON writer use it",
+         "f32": "F32.v (hand-written binary32: u64 as f32, /, +, partial_cmp) vs the hardware operations (bit patterns)",
          "slots": "SlotDist.v vs MinCostFlowSolver::distribute_maintenance_slots (SLOT lines of the hook)",
          "ops": "Schedule.v vs schedule.rs / schedule/modifications.rs (operation histories)",
          "neigh": "Swaps.v / SwapsRot.v vs local_search/neighborhood (walks)",
